@@ -136,6 +136,11 @@ void cache_interface::store_page(string const &key,int timeout)
 
 	context_->response().finalize();
 
+	// once a write to the client fails the output stream goes bad and everything the
+	// application writes afterwards is dropped: the copy is a truncated page then
+	if(!context_->response().out())
+		return;
+
 	std::string r_key = (page_compression_used_ ? "_Z:" : "_U:") + key;
 	add_trigger(key);
 	cache_module_->store(r_key,context_->response().copied_data(),triggers_,deadtime(timeout));
